@@ -391,6 +391,20 @@ theorem tcp_lock_scope_counterexample :
   rw [← wireOkB_iff]; decide
 
 open Mieru.CloseStream in
+/-- What the stream-transport theorems assume besides `wAssumed`: the TCP connection survives. If the
+    underlay is torn down (reset, read error, a failed open of any multiplexed session's segment), every
+    session on it is closed GRACEFULLY (`baseUnderlay.Close → s.Close()`, pinned by
+    `close_wait_and_idle_constants`), so a reader that has one of two fragments drains it and sees a clean
+    EOF. C03 quantifies over datagram faults, not over the death of a TCP connection, so this is the
+    boundary of the statement, not a counterexample to it; the harness records the behaviour of the real
+    endpoints on every run (`tcp-reset`, histogram `tcp_reset_reader_outcome`). -/
+theorem tcp_reader_local_close_counterexample :
+    let sr := localClose (run SRx.init [.data [1]])
+    WireOk [[1], [2]] [.data [1]] ∧ sr.queue = [[1]] ∧ readOnce sr 1 = RdEv.eof := by
+  refine ⟨?_, by decide, by decide⟩
+  rw [← wireOkB_iff]; decide
+
+open Mieru.CloseStream in
 /-- Soundness of the writer-side correspondence: a history of application calls and wire emissions that
     the executable acceptor accepts without having had to explain a close request as a forced write
     that overtook queued data (`sched` still set) has a `WireOk` wire — so the driver's `wireOkB` bit
